@@ -1212,9 +1212,6 @@ void IGXMLScanner::scanReset(const InputSource& src)
     // Reset validation
     fValidate = (fValScheme == Val_Always) ? true : false;
 
-    // Ignore skipDTDValidation flag if no schema processing is taking place */
-    fSkipDTDValidation = fSkipDTDValidation && fDoSchema;
-
     //  And for all installed handlers, send reset events. This gives them
     //  a chance to flush any cached data.
     if (fDocHandler)
@@ -3303,7 +3300,7 @@ bool IGXMLScanner::switchGrammar(const XMLCh* const newGrammarNameSpace)
 {
     Grammar* tempGrammar = fGrammarResolver->getGrammar(newGrammarNameSpace);
 
-    if (!tempGrammar && !fSkipDTDValidation) {
+    if (!tempGrammar && !skipDTDValidation()) {
         // This is a case where namespaces is on with a DTD grammar.
         tempGrammar = fDTDGrammar;
     }
@@ -3321,7 +3318,7 @@ bool IGXMLScanner::switchGrammar(const XMLCh* const newGrammarNameSpace)
             }
         }
         else if (tempGrammarType == Grammar::DTDGrammarType) {
-            if (fSkipDTDValidation) {
+            if (skipDTDValidation()) {
                 return false;
             }
 
